@@ -5,6 +5,7 @@ package main
 
 import (
 	"fmt"
+	"go/ast"
 	"go/token"
 	"go/types"
 	"strings"
@@ -170,6 +171,35 @@ func (ex *Exec) modelled(st *State, ref string, fn *types.Func, recv *Val, args 
 		}
 	case "sort.Slice", "sort.Strings", "slices.Sort", "sort.Sort", "sort.Stable", "sort.SliceStable":
 		s := args[0]
+		if s.Sh != nil && s.Sh.Kind == "slice" && !s.kid("elems").Sh.IsLeaf() && sc == nil && (ref == "sort.Slice" || ref == "sort.SliceStable" || ref == "sort.Sort" || ref == "sort.Stable") {
+			// slice of structs: every element of the result is an element of the input and vice versa
+			r := ex.freshVal(s.T, "sorted")
+			st.assume(eq(r.kid("len").S, s.kid("len").S))
+			n := s.kid("len").S
+			var eqs func(a, b *Val, i, j string) []string
+			eqs = func(a, b *Val, i, j string) []string {
+				if a.Sh.IsLeaf() {
+					return []string{eq("(select "+a.S+" "+i+")", "(select "+b.S+" "+j+")")}
+				}
+				var out []string
+				for k := range a.Kids {
+					out = append(out, eqs(a.Kids[k], b.Kids[k], i, j)...)
+				}
+				return out
+			}
+			ra, sa := r.kid("elems"), s.kid("elems")
+			st.assume("(forall ((i Int)) (=> (and (<= 0 i) (< i " + n + ")) (exists ((j Int)) (and (<= 0 j) (< j " + n + ") " + and(eqs(ra, sa, "i", "j")...) + "))))")
+			st.assume("(forall ((j Int)) (=> (and (<= 0 j) (< j " + n + ")) (exists ((i Int)) (and (<= 0 i) (< i " + n + ") " + and(eqs(ra, sa, "i", "j")...) + "))))")
+			if call := ex.curCall; call != nil && len(call.Args) > 0 {
+				arg := call.Args[0]
+				if ce, ok := arg.(*ast.CallExpr); ok && len(ce.Args) == 1 {
+					arg = ce.Args[0] // sort.Sort(SortableShardList(x)) sorts x
+				}
+				ex.assignBack(st, arg, ex.retype(r, ex.typeOf(arg)))
+			}
+			ex.assumption("sort: the result is a permutation of the input (same members, same length)")
+			return none()
+		}
 		if s.Sh != nil && s.Sh.Kind == "slice" && s.kid("elems").Sh.IsLeaf() && sc == nil {
 			r := ex.freshVal(s.T, "sorted")
 			es := s.kid("elems").Sh.Elem.Leaf
@@ -192,8 +222,26 @@ func (ex *Exec) modelled(st *State, ref string, fn *types.Func, recv *Val, args 
 				}
 				st.assume("(forall ((i Int) (j Int)) (! (=> (and (<= 0 i) (< i j) (< j " + n + ")) " + le + ") :pattern ((select " + b + " i) (select " + b + " j))))")
 			}
+			if ref == "sort.Sort" || ref == "sort.Stable" {
+				// sort.Sort(x): x is assumed to order its elements by their natural order (Less = <)
+				var le string
+				switch es {
+				case "String":
+					le = "(str.<= (select " + b + " i) (select " + b + " j))"
+				case "Int", "Real":
+					le = "(<= (select " + b + " i) (select " + b + " j))"
+				}
+				if le != "" {
+					st.assume("(forall ((i Int) (j Int)) (! (=> (and (<= 0 i) (< i j) (< j " + n + ")) " + le + ") :pattern ((select " + b + " i) (select " + b + " j))))")
+					ex.assumption("sort.Sort on a slice of ordered scalars: Less is the natural order")
+				}
+			}
 			if call := ex.curCall; call != nil && len(call.Args) > 0 {
-				ex.assignBack(st, call.Args[0], r)
+				arg := call.Args[0]
+				if ce, ok := arg.(*ast.CallExpr); ok && len(ce.Args) == 1 && (ref == "sort.Sort" || ref == "sort.Stable") {
+					arg = ce.Args[0]
+				}
+				ex.assignBack(st, arg, ex.retype(r, ex.typeOf(arg)))
 			}
 			ex.assumption("sort: the result is a permutation of the input (same members, same length)" )
 			return none()
